@@ -1,13 +1,13 @@
 SPECIFICATION SpecGen
 CONSTANTS
   Callers = {c1, c2, c3}
-  MaxClock = 3
+  MaxClock = 2
   MaxBack = 1
   SeqMax = 1
   MachMax = 1
   Machine = 1
   MaxAttempts = 2
-  MaxCalls = 3
+  MaxCalls = 2
   UseCAS = TRUE
   AssumeNoFallbackOverflow = TRUE
   L = 3
